@@ -21,7 +21,7 @@
    checked entry by entry inside the kernel. *)
 From Coq Require Import NArith List Bool.
 From AV Require Import Generated.Style Generated.Render Spec.Vt Spec.Strip Spec.Sgr Spec.Algebra Spec.Render
-  Model.Base Model.Style Model.Render Proofs.Render.
+  Model.Base Model.Style Model.Render Proofs.Render Generated.RenderFn Proofs.RenderGen.
 Import ListNotations.
 Local Open Scope N_scope.
 
@@ -177,3 +177,33 @@ Theorem c05_example :
   option_map spec_strip (rn_render_style s) = Some [] /\
   rn_display true (mkRnFlags (Some 8) 42 (Some 2) (Some 2)) s = Some [27; 91; 48; 109].
 Proof. vm_compute. repeat split. Qed.
+
+(* ---- the tie by translation --------------------------------------------------------- *)
+
+(* Generated/RenderFn.v is written on every run by tools/gen_fn_render.py (tools/rs2v) from the
+   Rust sources of DisplayBuffer::{write_str, write_code, as_str} and the
+   as_{fg,bg,underline}_buffer functions of AnsiColor / Ansi256Color / RgbColor and
+   Color::{render_fg, render_bg, render_underline} ([gr_color_*_buffer]), over the Rust
+   data layout (a 19-byte array and a length, [rn_dbuf]).  [dbuf_rel d b]: the hand model's
+   byte list [b] is buffer[0..len] of [d]; [orel]: both sides panic, or both succeed with
+   related states. *)
+Theorem c05_translated_write_str_is_model :
+  forall d b part, dbuf_rel d b -> orel (gr_write_str d part) (rn_buf_write_str b part).
+Proof. exact translated_write_str. Qed.
+
+Theorem c05_translated_write_code_is_model :
+  forall d b code, dbuf_rel d b -> orel (gr_write_code d code) (rn_write_code b code).
+Proof. exact translated_write_code. Qed.
+
+Theorem c05_translated_as_str_is_model :
+  forall d b, dbuf_rel d b -> gr_as_str d = Some b.
+Proof. exact gr_as_str_eq. Qed.
+
+(* every colour, every slot: what the translated builder chain shows (as_str of its result) is
+   what the hand model -- the subject of every theorem above -- computes, a panic included *)
+Theorem c05_translated_buffers_are_model :
+  forall c,
+    gr_shown (gr_color_fg_buffer c) = rn_color_fg_buffer c /\
+    gr_shown (gr_color_bg_buffer c) = rn_color_bg_buffer c /\
+    gr_shown (gr_color_ul_buffer c) = rn_color_ul_buffer c.
+Proof. exact translated_buffers_are_model. Qed.
